@@ -1,8 +1,10 @@
 use crate::util::Run;
 
+pub mod anim;
 pub mod c01;
 pub mod c02;
 pub mod c03;
+pub mod c05;
 pub mod c08;
 pub mod c09;
 pub mod c10;
@@ -16,6 +18,8 @@ pub fn dispatch(id: &str, run: &mut Run) -> bool {
         "C01" => c01::run(run),
         "C02" => c02::run(run),
         "C03" => c03::run(run),
+        "C04" => c05::run(run, c05::Mode::C04),
+        "C05" => c05::run(run, c05::Mode::C05),
         "C08" => c08::run(run),
         "C09" => c09::run(run),
         "C10" => c10::run(run),
